@@ -30,8 +30,23 @@ PairFailed(ev) ==
                       ELSE {})
                 : k \in DOMAIN ev.obs}
 
+(* op "record": three consecutive genes of one region through the loop that feeds the merge (generate_domains):
+   genes = the domains found in each, motifs = whether a gene has motif hits, strands; mods = per gene the modules kept,
+   each with the positions (1..3) of the genes its domains come from.  Only *adjacent* genes are merged: a module never
+   holds domains of the two outer genes, whatever the gene in between carries *)
+RecordFailed(ev) ==
+    IF ev.exc # "" THEN {"record/no_exception:" \o ev.exc}
+    ELSE LET all == UNION {{ev.mods[g][k] : k \in DOMAIN ev.mods[g]} : g \in DOMAIN ev.mods}
+             from(m) == {m.genes[i] : i \in DOMAIN m.genes}
+         IN  (IF \E m \in all : {1, 3} \subseteq from(m) THEN {"record/only_adjacent_genes_are_merged"} ELSE {})
+             \cup (IF \E m \in all : \E a, b \in from(m) : ev.strands[a] # ev.strands[b]
+                   THEN {"record/only_same_strand_genes_are_merged"} ELSE {})
+             \cup (IF \E m \in all : Cardinality(from(m)) > 1 /\ ~m.complete
+                   THEN {"record/merged_only_if_complete"} ELSE {})
+
 Failed(ev) == CASE ev.op = "gene" -> GeneFailed(ev)
                 [] ev.op = "pair" -> PairFailed(ev)
+                [] ev.op = "record" -> RecordFailed(ev)
                 [] OTHER -> {"trace/unknown_op"}
 
 Init == l = 1
